@@ -5,12 +5,13 @@ namespace FV.Props
 open FV
 
 /-- **C03, clause 3 (portable types).** The non-padding bytes — for an alignment-1 type there is no padding, so: the bytes — that
-an emplacer leaves behind are exactly the documented encoding of the specified content. `_partial`: `flex::FromIterator` is not
-covered by the proof, and for native (padded) layouts "non-padding bytes" are compared by the correspondence check. -/
-theorem C03_image_is_serialisation_partial (t : Ty) (h : t.WF) (ha : t.align1 = true) (i : Init) (hw : InitWT t i) (ht : InitTight t i)
+an emplacer leaves behind are exactly the documented encoding of the specified content, for every emplacer. (For native, padded
+layouts the documented encoding is the C layout: `C03_emplace_reads_back` with the layout theorems of C04, and the byte-for-byte
+comparison with padding masked in the correspondence check.) -/
+theorem C03_portable_image_is_serialisation (t : Ty) (h : t.WF) (ha : t.align1 = true) (i : Init) (hw : InitWT t i) (ht : InitTight t i)
     (s : Slice) (hlen : t.dict.minSize ≤ s.len) :
     ∃ o, emplaceU t i s = .ok o ∧
       (o.res = .ok () → ∀ b, serialize t i = some b → o.bytes.take b.length = b) := by
-  obtain ⟨o, ho, hs⟩ := C17_image_is_serialisation_partial t h ha i hw ht s hlen
+  obtain ⟨o, ho, hs⟩ := C17_image_is_serialisation t h ha i hw ht s hlen
   exact ⟨o, ho, fun hres b hb => (hs hres b hb).1⟩
 end FV.Props
